@@ -3,12 +3,37 @@
 #ifndef TETL_TYPE_TRAITS_MAKE_UNSIGNED_HPP
 #define TETL_TYPE_TRAITS_MAKE_UNSIGNED_HPP
 
+#include <etl/_type_traits/conditional.hpp>
+#include <etl/_type_traits/is_const.hpp>
+#include <etl/_type_traits/is_enum.hpp>
+#include <etl/_type_traits/is_integral.hpp>
+#include <etl/_type_traits/is_volatile.hpp>
+#include <etl/_type_traits/remove_cv.hpp>
+
 namespace etl {
 
 namespace detail {
 
-template <typename>
-struct make_unsigned;
+// Integral types other than the standard integer types (char, wchar_t, char8_t, char16_t,
+// char32_t) and enumerations: the unsigned integer type with the smallest rank that has the
+// same size.
+template <typename T>
+struct make_unsigned {
+    static_assert(is_integral_v<T> or is_enum_v<T>, "make_unsigned requires an integral or enumeration type");
+    using type = conditional_t<
+        sizeof(T) == sizeof(unsigned char),
+        unsigned char,
+        conditional_t<
+            sizeof(T) == sizeof(unsigned short),
+            unsigned short,
+            conditional_t<
+                sizeof(T) == sizeof(unsigned int),
+                unsigned int,
+                conditional_t<sizeof(T) == sizeof(unsigned long), unsigned long, unsigned long long>>>>;
+};
+
+template <>
+struct make_unsigned<bool>;
 
 template <>
 struct make_unsigned<signed char> {
@@ -69,7 +94,16 @@ struct make_unsigned<unsigned long long> {
 /// provided. The behavior of a program that adds specializations for
 /// make_unsigned is undefined.
 template <typename Type>
-struct make_unsigned : etl::detail::make_unsigned<Type> { };
+struct make_unsigned {
+private:
+    using U = typename etl::detail::make_unsigned<remove_cv_t<Type>>::type;
+
+public:
+    using type = conditional_t<
+        is_const_v<Type>,
+        conditional_t<is_volatile_v<Type>, U const volatile, U const>,
+        conditional_t<is_volatile_v<Type>, U volatile, U>>;
+};
 
 template <typename T>
 using make_unsigned_t = typename make_unsigned<T>::type;
